@@ -1,10 +1,4 @@
 use crate::*;
-#[::entrait::entrait(TI, delegate_by = Del, ?Send)]
-pub trait T { async fn f(&self); }
-
-pub struct X;
-#[::entrait::entrait]
-impl TI for X { pub async fn f<D: Sync>(deps: &D) { ::vt::yield_once().await;  } }
-
-impl Del<Self> for crate::App { type Target = X; }
-pub fn w_send<'a, A: T + Sync>(app: &'a A, s: &'a str) { let fut = app.f(); is_send(&fut); }
+#[::entrait::entrait(pub T, ?Send)]
+async fn f<G: Send + 'static>(deps: &crate::ConcN, g: G) -> G { ::vt::yield_once().await; g }
+pub fn w_send<'a, A: T<u8> + Sync>(app: &'a A, s: &'a str) { let fut = app.f(7u8); is_send(&fut); }
